@@ -209,6 +209,49 @@ pub fn check_behaviour(c: &BehaviourCase, st: &mut Stats) -> CheckResult {
     Ok(())
 }
 
+/// Many seeds (weighted towards the larger sets): the generated private-key object and its re-imported copy must
+/// export the same bytes and produce the same signature. A key object that key generation fills incorrectly for
+/// one seed in 10^5 still re-imports to a correct object, so only this comparison (or a reference) shows it.
+fn generated_vs_reimported_sweep(ctx: &Ctx, rep: &mut Report) {
+    if cfg!(debug_assertions) {
+        return; // plain profile only (C13 sweeps key generation with the self-checks on)
+    }
+    let n = u64::from(ctx.n(200_000, 3_000_000));
+    let seed = ctx.seed;
+    crate::engine::run_sweep(
+        rep,
+        "generated_vs_reimported_sweep",
+        n,
+        false,
+        |i, st| {
+            let libr = libs()[match i % 20 { 0 => 0, 1..=3 => 1, _ => 2 }];
+            let p = libr.p();
+            let v = gen::prg_bytes(crate::engine::hash_of(&(seed, "c09-sweep", i)), "xi", 64);
+            let xi: [u8; 32] = core::array::from_fn(|k| v[k]);
+            let rnd: [u8; 32] = core::array::from_fn(|k| v[32 + k]);
+            st.eval();
+            st.nontrivial_enumerated += 1;
+            let (_, sk) = g("keygen_from_seed", || libr.keygen_from_seed(&xi))?;
+            let b = g("sk.into_bytes", || sk.to_bytes())?;
+            let sk2 = match g_sk(libr, &b)? {
+                Ok(k) => k,
+                Err(e) => fail!(format!("sweep:generated_sk_rejected:set{}", p.id), "set {}: the serialisation of the private key generated from seed {} is rejected by try_from_bytes ({e})", p.id, hex::encode(xi)),
+            };
+            if g("sk.into_bytes", || sk2.to_bytes())? != b {
+                fail!(format!("sweep:roundtrip_bytes_differ:set{}", p.id), "set {}: private key generated from seed {} changes bytes over a round trip", p.id, hex::encode(xi));
+            }
+            let m = &v[..(i % 33) as usize];
+            let s1 = guarded(|| sk.sign(&mut TestRng::replay(&rnd), m, &[], Mode::Pure)).map_err(|pi| Fail::panic("sign", &pi))?;
+            let s2 = guarded(|| sk2.sign(&mut TestRng::replay(&rnd), m, &[], Mode::Pure)).map_err(|pi| Fail::panic("sign", &pi))?;
+            if s1 != s2 {
+                fail!(format!("sweep:sig_differs_after_roundtrip:set{}", p.id), "set {}: the private key generated from seed {} and its re-imported copy sign differently (generated: {}, copy: {})", p.id, hex::encode(xi), if s1.is_ok() { "Ok" } else { "Err" }, if s2.is_ok() { "Ok" } else { "Err" });
+            }
+            Ok(())
+        },
+        |i| json!({"index": i, "seed": seed}),
+    );
+}
+
 pub fn run(ctx: &Ctx, rep: &mut Report) {
     rep.assume(ASSUME_REF);
     run_generated(ctx, rep, "pk_roundtrip", ctx.n(100_000, 2_000_000), || (0u8..3, gen::pk_spec()).prop_map(|(set, pk)| PkCase { set, pk }), check_pk);
@@ -235,6 +278,8 @@ pub fn run(ctx: &Ctx, rep: &mut Report) {
         check_behaviour,
     );
     crate::props::history::run(ctx, rep, 2500, 60000);
+    crate::props::c03::cold_start(ctx, rep, &["import round trip differs", "panic"]);
+    generated_vs_reimported_sweep(ctx, rep);
 }
 
 pub fn replay(_ctx: &Ctx, sub: &str, case: &Value) -> Option<CheckResult> {
